@@ -327,6 +327,12 @@ def r02h(ck, fb, R='R02h'):
         return
     sl = util.sites_on_field(w, r'tokio::fs::File::set_len$', 'data_file')
     ck.floor(R, 'set_len in write()', len(sl), 1)
+    # the terminator is only needed while the recovery scan forgets what it counted when it runs into end of file (see R04k): with a scan that
+    # counts on every exit a record may end exactly at the end of the file
+    from rules.c04 import recovery_counts_on_every_exit
+    if recovery_counts_on_every_exit(fb):
+        ck.ok(R, 'write:extend-keeps-zero-terminator', w.where(), 'not required: move_to_index_by_count counts the scanned records on its end-of-file exit')
+        return
     for s in sl:
         ok = False
         for a in cfg.guard_atoms(w, s.bb):
